@@ -137,6 +137,13 @@ type c15Cell struct {
 	Tok  string `json:"token_class"`
 	// boundary cells (thorough): a valid token used before / after its expiry
 	Boundary string `json:"boundary,omitempty"` // "", "early", "late"
+	// Form of the request line (session cells, c15sess.go): "" = JSON object with the token as a string;
+	// "plain" = the plain-text command line (cannot carry a token); "null" / "number" = JSON object whose
+	// signature field is null / a number (malformed token).
+	Form string `json:"request_form,omitempty"`
+	// Exp, when non-zero, is the expected outcome given by the generator of the cell (session and
+	// key-replacement cells) instead of the table c15Expect.
+	Exp int `json:"-"`
 }
 
 func (c c15Cell) key() string { return c.Cmd + ":" + c.Conn + ":" + c.Type + ":" + c.Tok }
@@ -298,8 +305,10 @@ func (a *c15Arena) start() error {
 	if err := a.T.Start(); err != nil {
 		return fmt.Errorf("%v: %s", err, a.T.OutTail(1500))
 	}
-	if err := a.R.Start(); err != nil {
-		return fmt.Errorf("%v: %s", err, a.R.OutTail(1500))
+	if a.R != nil {
+		if err := a.R.Start(); err != nil {
+			return fmt.Errorf("%v: %s", err, a.R.OutTail(1500))
+		}
 	}
 	ctx, cancel := context.WithCancel(context.Background())
 	a.hctx = cancel
@@ -332,7 +341,7 @@ func (a *c15Arena) start() error {
 		c.Close()
 		var st struct{ RoutingTable map[string]string }
 		_ = json.Unmarshal([]byte(l), &st)
-		if _, ok := st.RoutingTable[a.rid]; !ok {
+		if _, ok := st.RoutingTable[a.rid]; !ok && a.R != nil {
 			continue
 		}
 		if _, ok := st.RoutingTable[fmt.Sprintf("h15-%d", a.idx)]; !ok {
@@ -639,21 +648,51 @@ func c15Trunc(s string, n int) string {
 }
 
 // token for the cell: (text, present, description). Boundary cells bring their own token.
-func (a *c15Arena) token(c c15Cell, override func() string) (string, bool, string) {
+func (a *c15Arena) token(c c15Cell, override func() (string, string)) (string, bool, string) {
 	if override != nil {
-		return override(), true, "valid RS512 token (boundary " + c.Boundary + ")"
+		tok, desc := override()
+		return tok, true, desc
 	}
 	return a.mint.mint(c.Tok, a.tid, a.rid, a.cellRng(c))
 }
 
+// requestLine renders the request of a cell in the cell's form.
+func c15RequestLine(c c15Cell, req map[string]any, tok string, present bool) string {
+	switch c.Form {
+	case "plain":
+		switch c.Cmd {
+		case "submit":
+			return fmt.Sprintf("work submit %v %v", req["node"], req["worktype"])
+		case "results":
+			return fmt.Sprintf("work results %v 0", req["unitid"])
+		}
+		return fmt.Sprintf("work %s %v", c.Cmd, req["unitid"])
+	case "null":
+		req["signature"] = nil
+	case "number":
+		req["signature"] = 1234567
+	default:
+		if present {
+			req["signature"] = tok
+		}
+	}
+	rb, _ := json.Marshal(req)
+	return string(rb)
+}
+
 // runSubmit: one submit exchange; effect = a unit directory appeared (on T; on R for the remote classes).
-func (a *c15Arena) runSubmit(c c15Cell, override func() string) *c15Obs {
-	o := &c15Obs{Cell: c}
+func (a *c15Arena) runSubmit(c c15Cell, override func() (string, string)) *c15Obs {
 	cl, err := a.dial(c.Conn)
 	if err != nil {
-		o.Undecided = "dial: " + err.Error()
-		return o
+		return &c15Obs{Cell: c, Undecided: "dial: " + err.Error()}
 	}
+	return a.submitOn(cl, c, override, true)
+}
+
+// submitOn: the submit exchange on an established session. closeAfter: the session is closed once the
+// exchange is over (before the clean-up); otherwise it is left to the caller (multi-command sessions).
+func (a *c15Arena) submitOn(cl *ctl.Client, c c15Cell, override func() (string, string), closeAfter bool) *c15Obs {
+	o := &c15Obs{Cell: c}
 	tok, present, desc := a.token(c, override)
 	o.TokenDesc, o.Token = desc, c15Trunc(tok, 900)
 	req := map[string]any{"command": "work", "subcommand": "submit", "node": a.tid, "worktype": "sgen"}
@@ -668,11 +707,8 @@ func (a *c15Arena) runSubmit(c c15Cell, override func() string) *c15Obs {
 	case c15RU:
 		req["node"], remote = a.rid, true
 	}
-	if present {
-		req["signature"] = tok
-	}
-	rb, _ := json.Marshal(req)
-	o.Request = c15Trunc(string(rb), 1200)
+	line := c15RequestLine(c, req, tok, present)
+	o.Request = c15Trunc(line, 1200)
 	pidfile := a.newPidfile()
 	payload := c15LongSpec(a.cellSeed(c), pidfile)
 	a.dirMu.Lock()
@@ -681,7 +717,7 @@ func (a *c15Arena) runSubmit(c c15Cell, override func() string) *c15Obs {
 	if remote {
 		rbf = c15Ls(a.R.DataDir())
 	}
-	res := cl.Submit(req, payload, 40*time.Second)
+	res := cl.Submit(line, payload, 40*time.Second)
 	o.Reply = res.Ack
 	if res.Final != "" {
 		o.Reply += " | " + res.Final
@@ -723,7 +759,9 @@ func (a *c15Arena) runSubmit(c c15Cell, override func() string) *c15Obs {
 		}
 	}
 	a.dirMu.Unlock()
-	cl.Close()
+	if closeAfter {
+		cl.Close()
+	}
 	if len(foreign) > 0 {
 		o.Note += fmt.Sprintf("units of other cells appeared on R meanwhile: %v; ", foreign)
 	}
@@ -829,15 +867,9 @@ func (a *c15Arena) drainPool() {
 }
 
 // runUnitOp: cancel / release / force-release / results against a running unit that nothing has touched yet.
-func (a *c15Arena) runUnitOp(c c15Cell, override func() string) *c15Obs {
+func (a *c15Arena) runUnitOp(c c15Cell, override func() (string, string)) *c15Obs {
 	o := &c15Obs{Cell: c}
-	exp := c15Expect(c.Cmd, c.Conn, c.Type, c.Tok)
-	switch c.Boundary {
-	case "early":
-		exp = c15Must
-	case "late":
-		exp = c15MustNot
-	}
+	exp := c15CellExpect(c)
 	var t *c15Target
 	var err error
 	if c.Type == c15U {
@@ -869,18 +901,22 @@ func (a *c15Arena) runUnitOp(c c15Cell, override func() string) *c15Obs {
 		return o
 	}
 	defer cl.Close()
+	a.unitOpOn(cl, c, t, exp, override, o)
+	return o
+}
+
+// unitOpOn: one cancel / release / force-release / results exchange about target t on an established
+// session; fills o with the request, the reply and the effects observed on t.
+func (a *c15Arena) unitOpOn(cl *ctl.Client, c c15Cell, t *c15Target, exp int, override func() (string, string), o *c15Obs) {
 	tok, present, desc := a.token(c, override)
 	o.TokenDesc, o.Token = desc, c15Trunc(tok, 900)
 	req := map[string]any{"command": "work", "subcommand": c.Cmd, "unitid": t.unit}
 	if c.Cmd == "results" {
 		req["startpos"] = 0
 	}
-	if present {
-		req["signature"] = tok
-	}
-	rb, _ := json.Marshal(req)
-	o.Request = c15Trunc(string(rb), 1200)
-	reply, rerr := cl.Line(string(rb), 30*time.Second)
+	line := c15RequestLine(c, req, tok, present)
+	o.Request = c15Trunc(line, 1200)
+	reply, rerr := cl.Line(line, 30*time.Second)
 	o.Reply = c15Trunc(reply, 300)
 	if rerr != nil {
 		o.Note = "reply: " + rerr.Error()
@@ -908,7 +944,21 @@ func (a *c15Arena) runUnitOp(c c15Cell, override func() string) *c15Obs {
 			break
 		}
 	}
-	return o
+}
+
+// c15CellExpect: the expected outcome of a cell (table c15Expect; boundary, session and key-replacement
+// cells carry the expectation their generator derived from the statement).
+func c15CellExpect(c c15Cell) int {
+	if c.Exp != 0 {
+		return c.Exp
+	}
+	switch c.Boundary {
+	case "early":
+		return c15Must
+	case "late":
+		return c15MustNot
+	}
+	return c15Expect(c.Cmd, c.Conn, c.Type, c.Tok)
 }
 
 // c15Wanted: does the effect list contain what the command is for (used only to stop polling positive controls).
@@ -1162,7 +1212,10 @@ func runC15(tier string, _ []string) {
 		"Each cell is one command against real daemons (T verifying, R remote, H in-process mesh client) and its own target unit (a running producer with a pid file and known output; pre-created directories of an unregistered work type for 'unknown'). thorough: every target is fresh. quick: cells whose expected outcome is a refusal may use a unit that at most 7 earlier refused commands left verifiably untouched (it is re-examined before every use and at the end; a change found then is attributed to the last command it received); all other cells get a fresh unit. " +
 		"Effects are read from disk, the process table and the received bytes (new unit directories on T and on R attributed by lock and by the payload they received, producer pid, unit directory removed, cancel/release flags in the status file, the unit's output on the connection), never from the reply. " +
 		"the seed draws the variant inside a token class (garbage form, truncation point, age of the expired token, foreign audience, whitespace form), unit payload seeds, the cell order and the extra token class of the reduced remote part. " +
-		"A cell is distinct by (command, connection kind, work-type class, token class) and counted only when its outcome was decided from disk / process table / received bytes.")
+		"A cell is distinct by (command, connection kind, work-type class, token class) and counted only when its outcome was decided from disk / process table / received bytes. " +
+		"Histories (c15sess.go): (a) multi-command sessions - two or three commands on ONE tcp / mesh connection, each about its own verifying-type unit, in the shapes valid,bad / bad,valid / valid,bad,valid / bad,valid,bad / valid,valid,bad / valid,bad,bad, where 'bad' is any of the refusable token classes or a request form that cannot carry a token (plain-text line, signature null, signature a number) and an accepted non-final command is a cancel / release / force-release; every command must have the outcome it has on a fresh connection (quick: each second command x {absent, plain-text, one seeded class} after a valid first one, one reverse session per first command, one of each three-command shape, per connection kind; thorough: first command x second command x all classes, 15 of each three-command shape); units of refused steps are looked at again at the end of the session. " +
+		"(b) replacement of the verification key on a daemon of its own (k15): the configured key file is replaced (rename over it / rewrite in place / remove and create) while the daemon runs, after commands were verified with the previous content; in every generation (quick: A, B, A; thorough: seven generations of three keys) each protected command over tcp and mesh is sent with an unexpired, correctly addressed RS512 token of every key: the key in the file must work, retired and never-configured keys must be refused without effect; all commands of a generation are over before the file is touched.")
+	run.Assume("'the configured key' is the content of the configured key file at the time the command is judged (the file is complete and no command is in flight while it is replaced)")
 	run.Assume("Unix-socket commands are used by the harness to create and to clean up target units (exempt by the statement)")
 	run.Assume("token without exp claim, audience list containing this node, valid token in another RSA algorithm (RS256) and valid token with surrounding whitespace are don't-care; a token without aud claim is 'not addressed to this node'")
 	run.Assume("a non-empty token sent for a non-verifying or unknown work type has to be refused on every connection kind including the Unix socket (the last clause of the statement has no exemption); an empty string counts as no token there")
@@ -1239,6 +1292,28 @@ func runC15(tier string, _ []string) {
 	}
 
 	j := &c15Judge{run: run, tab: map[string]int{}}
+	// key replacement runs on its own daemon, next to the matrix
+	sessions := c15SessionPlan(run.Seed, full)
+	if os.Getenv("C15_TMP_NOHIST") == "1" { // TEMPORARY (timing comparison)
+		sessions = nil
+	}
+	rotKeys := []*c15Keys{k1, k2}
+	if full {
+		k3, err := c15NewKeys()
+		if err != nil {
+			run.Inconclusive("key generation: " + err.Error())
+		} else {
+			rotKeys = append(rotKeys, k3)
+		}
+	}
+	rotDone := make(chan int, 1)
+	go func() {
+		if os.Getenv("C15_TMP_NOHIST") == "1" {
+			rotDone <- 0
+			return
+		}
+		rotDone <- c15KeyReplacement(run, j, base, filepath.Join(base, "producer.sh"), rotKeys, full)
+	}()
 	for _, a := range arenas {
 		a.onLate = func(prev *c15Obs, eff []string) {
 			o := *prev
@@ -1253,6 +1328,18 @@ func runC15(tier string, _ []string) {
 	var sampleMu sync.Mutex
 	sampled := map[string]bool{}
 	for ai, a := range arenas {
+		// the sessions of this arena are queued in front of its cells (same workers)
+		var mySessions []c15Session
+		for si, s := range sessions {
+			if si%len(arenas) == ai {
+				mySessions = append(mySessions, s)
+			}
+		}
+		sch := make(chan c15Session, len(mySessions))
+		for _, s := range mySessions {
+			sch <- s
+		}
+		close(sch)
 		ch := make(chan c15Cell, len(per[ai]))
 		for _, c := range per[ai] {
 			ch <- c
@@ -1262,6 +1349,9 @@ func runC15(tier string, _ []string) {
 			wg.Add(1)
 			go func(a *c15Arena) {
 				defer wg.Done()
+				for s := range sch {
+					c15DoSession(run, j, a, s)
+				}
 				for c := range ch {
 					var o *c15Obs
 					for try := 0; try < 2; try++ {
@@ -1300,6 +1390,9 @@ func runC15(tier string, _ []string) {
 	for _, a := range arenas {
 		a.drainPool()
 	}
+	tRot := time.Now()
+	rotPlanned := <-rotDone
+	run.Extra("keyfile_wait_after_matrix_s", time.Since(tRot).Seconds())
 
 	if full {
 		c15Boundary(run, j, arenas)
@@ -1320,6 +1413,9 @@ func runC15(tier string, _ []string) {
 	run.Extra("outcome_table", j.tab)
 	j.mu.Unlock()
 	run.Count("cells_planned", int64(len(cells)))
+	run.Count("sessions_planned", int64(len(sessions)))
+	run.Extra("tmp_session_ms", []int64{c15TmpT[0].Load(), c15TmpT[1].Load(), c15TmpT[2].Load(), c15TmpT[3].Load(), c15TmpT[4].Load()})
+	run.Count("keyfile_commands_planned", int64(rotPlanned))
 	run.Count("mesh_sessions", meshDials)
 	run.Count("arenas", int64(nArenas))
 	for _, a := range arenas {
@@ -1334,7 +1430,7 @@ func runC15(tier string, _ []string) {
 		}
 	}
 	collectRaces(run, workDir())
-	run.Finish(len(cells) * 9 / 10)
+	run.Finish((len(cells) + len(sessions) + rotPlanned) * 9 / 10)
 }
 
 // c15Boundary: a valid token that expires in 6 s must work when used at once, and the same kind of token
@@ -1349,7 +1445,7 @@ func c15Boundary(run *ev.Run, j *c15Judge, arenas []*c15Arena) {
 			wg.Add(1)
 			go func(a *c15Arena, cmd, conn string, idx int) {
 				defer wg.Done()
-				do := func(c c15Cell, tokf func() string) *c15Obs {
+				do := func(c c15Cell, tokf func() (string, string)) *c15Obs {
 					if cmd == "submit" {
 						return a.runSubmit(c, tokf)
 					}
@@ -1358,9 +1454,9 @@ func c15Boundary(run *ev.Run, j *c15Judge, arenas []*c15Arena) {
 				// early use: the token is minted right before it is sent
 				early := c15Cell{Idx: idx, Cmd: cmd, Conn: conn, Type: c15V, Tok: "valid-rs512", Boundary: "early"}
 				var exp int64
-				oe := do(early, func() string {
+				oe := do(early, func() (string, string) {
 					exp = time.Now().Unix() + 6
-					return a.mint.mintExp(a.tid, exp)
+					return a.mint.mintExp(a.tid, exp), "valid RS512 token (boundary early)"
 				})
 				run.Eval(1)
 				if oe.Undecided == "" && len(oe.Effects) == 0 && exp != 0 && time.Now().Unix() >= exp-1 {
@@ -1374,11 +1470,11 @@ func c15Boundary(run *ev.Run, j *c15Judge, arenas []*c15Arena) {
 				late.Boundary, late.Idx = "late", idx+1
 				lexp := time.Now().Unix() + 3
 				ltok := a.mint.mintExp(a.tid, lexp)
-				ol := do(late, func() string {
+				ol := do(late, func() (string, string) {
 					for time.Now().Unix() < lexp+2 {
 						time.Sleep(100 * time.Millisecond)
 					}
-					return ltok
+					return ltok, "valid RS512 token (boundary late)"
 				})
 				run.Eval(1)
 				if ol.Undecided != "" || !j.judge(ol) {
